@@ -1492,6 +1492,18 @@ def instr_sweep(rng: random.Random, thorough: bool = False):
                 add([(mt, mv)], [('MAP', ('SEQ', [('CDR',), ('SOME',)]))])
             add([], [('EMPTY_SET', kt), ('PUSH', T_BOOL, ('bool', True)), ('PUSH', kt, gen_data(rng, kt)), ('UPDATE',)])
             add([], [('EMPTY_MAP', kt, vt), ('PUSH', ('option', vt), ('some', gen_data(rng, vt))), ('PUSH', kt, gen_data(rng, kt)), ('UPDATE',)])
+    # compounds holding a lambda whose signature mentions `operation`: still duplicable and packable (FAILWITH carries the value)
+    n0 = len(out)
+    for (la, lb, lbody) in ((T_UNIT, T_OP, [('FAILWITH',)]), (('list', T_OP), T_UNIT, [('DROP', 1), ('UNIT',)]), (T_NAT, T_NAT, [])):
+        lam = ('LAMBDA', la, lb, ('SEQ', lbody))
+        lt = ('lambda', la, lb)
+        for wrap in ([], [('PUSH', T_NAT, ('int', 1)), ('PAIR',)], [('SOME',)], [('LEFT', T_NAT)], [('NIL', lt), ('SWAP',), ('CONS',)],
+                     [('SOME',), ('PUSH', T_STRING, ('str', 'a')), ('PAIR',), ('RIGHT', T_UNIT)]):
+            add([], [lam] + wrap + [('DUP', 1)])
+            add([], [lam] + wrap + [('FAILWITH',)])
+            add([(T_INT, ('int', 3))], [('DIP', 1, ('SEQ', [lam] + wrap + [('DUP', 1), ('DROP', 1)]))])
+    for c in out[n0:]:
+        c['must'] = True
     # boundary operands of every instruction that has a bound: always run (also in the quick tier)
     n0 = len(out)
     for op in ('LSL', 'LSR'):
